@@ -6,6 +6,7 @@ import (
 	"strings"
 	"time"
 
+	"github.com/Flowpack/prunner"
 	"github.com/Flowpack/prunner/definition"
 )
 
@@ -105,3 +106,5 @@ var (
 )
 
 type definitionPipelinesDef = definition.PipelinesDef
+
+type prunnerPipelineInfo = prunner.PipelineInfo
